@@ -13,7 +13,7 @@ JVM_ENV = {"JAVA_TOOL_OPTIONS": "-XX:TieredStopAtLevel=1 -XX:ParallelGCThreads=2
 def execute_stream(sc, workdir):
     runs = sc["runs"]
     if sc.get("confirm_hint"):
-        # confirmation on the stock simulator: only the runs that produced a rejected clause (at most 2)
+        # confirmation on the stock simulator: only the first run that produced a rejected clause
         runs = [runs[i] for i in sc["confirm_hint"] if i < len(runs)]
     hdr, evs, line_of = None, [], []
     stats, cover, per_run, cover_by_run, drifts = {}, set(), [], [], []
@@ -59,7 +59,7 @@ def execute_stream(sc, workdir):
     stats["scripted_runs"] = sum(1 for r in runs if "script" in r)
     if not os.environ.get("VERIF_KEEP"):
         os.remove(tf)
-    hint = sorted({b[1]["run"] for b in bad})[:2] or None
+    hint = sorted({b[1]["run"] for b in bad})[:1] or None
     return dict(confirm_hint=hint if not sc.get("confirm_hint") else None, bad=bad, evaluations=len(evs), traces=len(runs), sample=sample, stats=stats, cover=sorted(cover), cover_by_run=cover_by_run, info=v["info"])
 
 
